@@ -77,7 +77,9 @@ Inductive uwrap :=
 | UWBoth       (* *ut.WBoth: Cause() and Unwrap() *)
 | UWFull       (* *ut.WFull{msg, cause}: Error = msg alone (elides its cause), Unwrap() *)
 | UWEmpty      (* *ut.WEmpty{cause}: Error = cause text, Unwrap() *)
-| UWSafeDet.   (* *ut.WSafeDet{msg, details, cause}: prefix style + SafeDetails() *)
+| UWSafeDet    (* *ut.WSafeDet{msg, details, cause}: prefix style + SafeDetails() *)
+| UWAs.        (* *ut.WAs{msg, cause}: prefix style, Unwrap(), and an As(interface{}) bool method
+                  that fills a *ut.Val target with ut.Val{Msg: msg, Tag: 503} *)
 
 Inductive leafk :=
 | LErrString (msg : str)                 (* *errors.errorString (stdlib errors.New and sentinels) *)
@@ -172,6 +174,7 @@ Definition uwrap_ty (u : uwrap) : str :=
   match u with
   | UWUnwrap => lit "*ut.WUnwrap" | UWCause => lit "*ut.WCause" | UWBoth => lit "*ut.WBoth"
   | UWFull => lit "*ut.WFull" | UWEmpty => lit "*ut.WEmpty" | UWSafeDet => lit "*ut.WSafeDet"
+  | UWAs => lit "*ut.WAs"
   end.
 
 Definition ut_pkg : str := lit "verifharness/ut".
